@@ -17,11 +17,15 @@ forward references failing now and defined later); non-triviality is MEASURED in
 """
 from __future__ import annotations
 
-import concurrent.futures
+import atexit
 import json
+import os
+import queue
 import random
+import subprocess
+import threading
 
-from ..common import LEAN, Check, Explore, Failure, lean_driver, parse_sexp, sexp, subproc_json
+from ..common import LEAN, PY, REPO, VERIF, Check, Explore, Failure, lean_driver, parse_sexp, sexp
 from ..extract import memo as xmemo
 
 MODULE = 'BearVerif.Props.C14'
@@ -35,20 +39,68 @@ WORKERS = 16
 # ------------------------------------------------------------------------------------------------------------
 
 
+class Pool:
+    """WORKERS long-lived `python -m harness.impl.c14 --serve` processes (real beartype from $VERIF_REPO); each
+    item runs in its own fork() of the worker's pristine interpreter."""
+
+    def __init__(self, workers: int = WORKERS):
+        env = dict(os.environ)
+        env.update({'PYTHONPATH': f'{VERIF}:{REPO}', 'PYTHONDONTWRITEBYTECODE': '1', 'PYTHONHASHSEED': '0'})
+        self.procs = [subprocess.Popen([PY, '-m', 'harness.impl.c14', '--serve'], cwd=VERIF, env=env, text=True,
+                                       stdin=subprocess.PIPE, stdout=subprocess.PIPE, stderr=subprocess.DEVNULL)
+                      for _ in range(workers)]
+        for p in self.procs:
+            if p.stdout.readline().strip() != 'ready':
+                raise RuntimeError('harness.impl.c14 worker did not start')
+
+    def run(self, items: list[dict]) -> list[dict]:
+        out: list = [None] * len(items)
+        q: queue.Queue = queue.Queue()
+        for k, it in enumerate(items):
+            q.put((k, it))
+
+        def work(p):
+            while True:
+                try:
+                    k, it = q.get_nowait()
+                except queue.Empty:
+                    return
+                p.stdin.write(json.dumps(it) + '\n')
+                p.stdin.flush()
+                line = p.stdout.readline()
+                out[k] = json.loads(line) if line.strip() else {'error': 'worker died'}
+        ts = [threading.Thread(target=work, args=(p,)) for p in self.procs]
+        for t in ts:
+            t.start()
+        for t in ts:
+            t.join()
+        return out
+
+    def close(self):
+        for p in self.procs:
+            try:
+                p.stdin.close()
+            except Exception:            # noqa: BLE001
+                pass
+        for p in self.procs:
+            try:
+                p.wait(timeout=10)
+            except Exception:            # noqa: BLE001
+                p.kill()
+
+
+_POOL: Pool | None = None
+
+
 def run_items(items: list[dict]) -> list[dict]:
-    """Every item in its own forked copy of a pristine interpreter; chunked over WORKERS subprocesses."""
+    """Every item in its own forked copy of a pristine interpreter, spread over the worker pool."""
+    global _POOL
     if not items:
         return []
-    n = min(WORKERS, max(1, len(items) // 8))
-    chunks = [items[i::n] for i in range(n)]
-    out: list = [None] * len(items)
-    with concurrent.futures.ThreadPoolExecutor(max_workers=n) as ex:
-        futs = {ex.submit(subproc_json, 'harness.impl.c14', {'items': c}): k for k, c in enumerate(chunks)}
-        for f in concurrent.futures.as_completed(futs):
-            k = futs[f]
-            for j, r in enumerate(f.result()['results']):
-                out[k + j * n] = r
-    return out
+    if _POOL is None:
+        _POOL = Pool()
+        atexit.register(_POOL.close)
+    return _POOL.run(items)
 
 
 def fresh_ops(ops: list, i: int) -> list:
